@@ -306,6 +306,18 @@ namespace BitSerializer::Convert::Utf
 						}
 					}
 				}
+				else
+				{
+					// Surrogate code points and values beyond U+10FFFF are not valid in the UTF-32
+					if (UnicodeTraits::IsInSurrogatesRange(sym) || sym > 0x10FFFF)
+					{
+						++invalidSequencesCount;
+						if (!Detail::HandleEncodingError(outStr, errorPolicy, errorMark)) {
+							return UtfEncodingResult(UtfEncodingErrorCode::InvalidSequence, startTailPos, invalidSequencesCount);
+						}
+						continue;
+					}
+				}
 
 				if (sym < 0x800)
 				{
@@ -450,10 +462,21 @@ namespace BitSerializer::Convert::Utf
 			}
 			else if constexpr (sizeof(TInCharType) == sizeof(char32_t))
 			{
+				size_t invalidSequencesCount = 0;
 				while (in != end)
 				{
+					TInIt startTailPos = in;
 					uint32_t sym = *in;
 					++in;
+					// Surrogate code points and values beyond U+10FFFF are not valid in the UTF-32
+					if (UnicodeTraits::IsInSurrogatesRange(sym) || sym > 0x10FFFF)
+					{
+						++invalidSequencesCount;
+						if (!Detail::HandleEncodingError(outStr, errorPolicy, errorMark)) {
+							return UtfEncodingResult(UtfEncodingErrorCode::InvalidSequence, startTailPos, invalidSequencesCount);
+						}
+						continue;
+					}
 					if (sym < 0x10000)
 					{
 						outStr.push_back(static_cast<TOutChar>(sym));
@@ -466,6 +489,7 @@ namespace BitSerializer::Convert::Utf
 						outStr.push_back(static_cast<TOutChar>(UnicodeTraits::LowSurrogatesStart | (sym & 0x3FF)));
 					}
 				}
+				return UtfEncodingResult(UtfEncodingErrorCode::Success, in, invalidSequencesCount);
 			}
 			return UtfEncodingResult(UtfEncodingErrorCode::Success, in, 0);
 		}
